@@ -99,7 +99,15 @@ func (s *c15State) Initiate(ctx context.Context) error {
 	for i := 0; i < s.initYields; i++ {
 		vsched.Yield()
 	}
-	if s.idx == s.initErrAt {
+	if s.initErrAt >= 0 && s.idx == s.initErrAt%100 {
+		// 1xx / 2xx: an operation inside Initiate ran into its OWN timeout or
+		// cancellation (the machine's context is alive): the error wraps a context error
+		switch s.initErrAt / 100 {
+		case 1:
+			return fmt.Errorf("initiate failed: inner operation: %w", context.Canceled)
+		case 2:
+			return fmt.Errorf("initiate failed: inner operation: %w", context.DeadlineExceeded)
+		}
 		return errors.New("initiate failed")
 	}
 	s.obs.initDone[s.idx] = true
@@ -262,8 +270,11 @@ func c15Evaluate(r *vrep.R, sc c15Scenario, bound int, s *vsched.Sched, res *c15
 				fail("skipped-state", fmt.Sprintf("Execute reported success but state %d never completed", k))
 			}
 		}
+		if sc.InitErrAt >= 0 {
+			fail("failed-initiate-ignored", fmt.Sprintf("Execute reported success although Initiate of state %d returned an error", sc.InitErrAt%100))
+		}
 	case res.err != nil && res.final == nil:
-		if errors.Is(res.err, context.Canceled) {
+		if errors.Is(res.err, context.Canceled) && !(sc.InitErrAt >= 100 && strings.Contains(res.err.Error(), "failed to initiate")) {
 			outcome = "cancelled"
 			if !sc.Cancel {
 				fail("spurious-cancel", "Execute returned context.Canceled although nobody cancelled")
@@ -360,6 +371,10 @@ func TestVerifC15(t *testing.T) {
 		{2, []string{"t0/1", "t0/2", "t1/1", "t1/2"}, 0, false, 1, 0, 0},
 		// a peer stays silent for state 1: the machine must keep waiting, not finish
 		{2, []string{"t0/1", "t0/2", "t1/1"}, 0, false, -1, 0, 0},
+		// a state fails to initiate because an operation inside it was cancelled / timed
+		// out on its own; the member already holds every message (late member)
+		{2, []string{"t1/1", "t1/2", "t0/1", "t0/2"}, 0, false, 101, 0, 1},
+		{2, []string{"t0/1", "t0/2", "t1/1", "t1/2"}, 1, false, 200, 0, 1},
 	}
 	// a burst larger than the receive buffer while the machine is not draining: the
 	// handler must exert back-pressure, not drop (bound 0/1 only: ~1300 points per run)
